@@ -28,7 +28,8 @@ static GLOBAL: TrackingAlloc = TrackingAlloc;
 /// Exclusion switch: alterations predicted to run into the open BSD0 length findings
 /// (unchecked `32 + ctrl + diff` addition; buffers sized by declared patch-data size / size
 /// after) are left out of the main batches and exercised by a fixed canary set instead.
-const EXCLUDE_KNOWN_BSD0_LENGTH_DEFECTS: bool = true;
+// the three BSD0 length defects this switch steered around were fixed in /repo (known_findings.json): off
+const EXCLUDE_KNOWN_BSD0_LENGTH_DEFECTS: bool = false;
 
 fn alloc_limit(input_len: usize) -> usize {
     (64usize << 20).max(256 * input_len)
